@@ -55,6 +55,7 @@ type Scenario struct {
 	SdCtx      string `json:"sdctx"`      // context handed to Shutdown: "bg" | "expired"
 	X          XCfg   `json:"xcfg"`       // exporter options the contract must not depend on
 	Grp        int    `json:"grp"`        // scenarios of one group differ in X only (0 = no group)
+	DlUs       int64  `json:"dl_us"`      // deadline of the caller's context, armed right after the Call event (0 = none)
 	Want       Want   `json:"want"`
 }
 
@@ -350,7 +351,7 @@ func (r *runner) runScenario(sc Scenario) {
 	s.emit("Cfg", false, map[string]any{
 		"proto": protoOf(sc.Exp), "signal": signalOf(sc.Exp), "exp": sc.Exp, "name": sc.Name, "src": sc.Src, "enabled": sc.Enabled,
 		"initial": sc.InitialUs, "maxint": sc.MaxIntUs, "maxel": sc.MaxElUs, "atto": atto, "cto": cto, "tol": sc.TolUs, "tick": sc.TickUs,
-		"nhdr": sc.X.Headers, "enc": enc, "env": sc.X.Env, "tmo": sc.X.Timeout, "grp": sc.Grp,
+		"nhdr": sc.X.Headers, "enc": enc, "env": sc.X.Env, "tmo": sc.X.Timeout, "grp": sc.Grp, "dl": sc.DlUs,
 		"want": map[string]any{"valid": sc.Want.Valid, "attempts": sc.Want.Attempts, "err": sc.Want.Err, "handled": sc.Want.Handled, "clock": sc.Want.Clock},
 	})
 	if sc.StopBefore == "cancel" {
@@ -359,6 +360,12 @@ func (r *runner) runScenario(sc Scenario) {
 	done := make(chan error, 1)
 	s.emit("Call", false, nil)
 	go func() {
+		ctx := ctx
+		if sc.DlUs > 0 { // armed after the Call event: the deadline is never earlier than Call.t + dl
+			c, cc := context.WithTimeout(ctx, time.Duration(sc.DlUs)*time.Microsecond)
+			defer cc()
+			ctx = c
+		}
 		err := exp.Export(ctx)
 		ref := 0
 		msg := ""
@@ -373,10 +380,14 @@ func (r *runner) runScenario(sc Scenario) {
 				msg = msg[:300]
 			}
 		}
-		s.emit("Ret", true, map[string]any{"err": err != nil, "ref": ref, "msg": msg})
+		s.emit("Ret", true, map[string]any{"err": err != nil, "ref": ref, "msg": msg,
+			"ctxerr": errors.Is(err, context.DeadlineExceeded) || errors.Is(err, context.Canceled)})
 		done <- err
 	}()
 	watchdog := 25 * time.Second
+	if sc.DlUs > 0 { // a call that is still running 3 s + tolerance after its caller's deadline does not return
+		watchdog = time.Duration(sc.DlUs+sc.TolUs)*time.Microsecond + 3*time.Second
+	}
 	returned := true
 	select {
 	case <-done:
@@ -431,6 +442,12 @@ func (r *runner) runScenario(sc Scenario) {
 		r.res.Count("xcfg_env", 1)
 	}
 	r.res.Count("xcfg_timeout_"+sc.X.Timeout, 1)
+	if sc.DlUs > 0 {
+		r.res.Count("ctx_deadline", 1)
+		if sc.Enabled && sc.MaxElUs == 0 {
+			r.res.Count("ctx_deadline_unlimited_policy", 1)
+		}
+	}
 	if attempts > len(sc.Items) {
 		r.res.Count("attempts_beyond_script", int64(attempts-len(sc.Items)))
 	}
@@ -521,6 +538,7 @@ func main() {
 		for i := 0; i < *n; i++ {
 			scs = append(scs, randomScenario(rng, *idBase+i))
 		}
+		scs = append(scs, cfgValueScenarios(vh.Seed(), *idBase+*n, *n/5)...) // RetryConfig value classes (cfgvalues.go)
 	default:
 		fmt.Fprintln(os.Stderr, "unknown mode", mode)
 		os.Exit(3)
